@@ -200,6 +200,7 @@ class FnResult(object):
         self.solver_seconds = 0.0
         self.paths = 0
         self.assumptions = []
+        self.tentative = None      # text: a loop header differs from the one the contract recorded (invariants tried anyway)
 
 
 def build_inputs(con, engine):
@@ -313,6 +314,10 @@ def verify_contract(con, contracts, tier="quick", externals=None):
         res.assumptions.append("%s: callee(s) used by contract (verified separately): %s" % (con.short, ", ".join(k.split("::")[-1] for k in con.modular)))
     if con.bv:
         res.assumptions.append("%s: integers modelled as signed %d-bit vectors with no-overflow obligations" % (con.short, con.bv))
+    for text, decl in (con.options.get("abstracted") or {}).items():
+        res.assumptions.append("%s: statement %r is ABSTRACTED: not executed, its effect over-approximated by arbitrary new values of %s; assumed: the calls "
+                               "inside it have no other effect and do not raise (stores and mutating calls on other objects are excluded syntactically)"
+                               % (con.short, text, ", ".join(sorted(decl)) or "nothing"))
     if con.options.get("loop_keep"):
         res.assumptions.append("%s: declared loop frame (not modified by loops): %s" % (con.short, ", ".join(con.options["loop_keep"])))
     if con.options.get("opaque_yields"):
@@ -434,6 +439,9 @@ def verify_contract(con, contracts, tier="quick", externals=None):
                 goal = E.eval_spec(en, con, _select(en, amap), s_out)
                 _mk(E, s_out, "post", None, ops._tb(truth(goal)) if not isinstance(goal, bool) else goal, con, "post/" + label, env)
         res.notes = list(E.notes)
+        for text in (con.options.get("abstracted") or {}):
+            if text not in E._abstract_hits:
+                raise EngineError("abstracted statement no longer exists: %r" % text)
         for text in list(con.ghost_asserts or {}) + list(con.ghost_updates or {}):
             if text not in E._ghost_hits:
                 raise EngineError("ghost assertion anchored on a statement that no longer exists: %r" % text)
@@ -480,6 +488,9 @@ def verify_contract(con, contracts, tier="quick", externals=None):
         res.obligations.append(d)
     res.solver_seconds += E.solver_seconds
     res.seconds = time.time() - t0
+    if getattr(E, "header_changes", None):
+        res.tentative = "; ".join(E.header_changes)
+        res.notes.append("tentative: " + res.tentative)
     return res
 
 
